@@ -110,7 +110,7 @@ static frequent_items_sketch<T, W> roundtrip(const frequent_items_sketch<T, W>& 
 template<typename T, typename W>
 static void run_program(Rng& r) {
   const bool TH = G().thorough();
-  const std::string K = std::string("fi|") + ItemGen<T>::name() + "|";
+  const std::string K = std::string("fi|") + ItemGen<T>::name() + (std::is_floating_point<W>::value ? "-f64w|" : "|");
   const int nleaves = 1 + int(r.below(4));
   const uint64_t domain = r.chance(0.3) ? 3 + r.below(30) : 20 + r.below(TH ? 4000 : 1200);
   std::vector<T> universe;
@@ -140,6 +140,7 @@ static void run_program(Rng& r) {
         default: x = r.below(domain); w = r.chance(0.01) ? W(1000000) : W(1 + r.below(3)); break;
       }
       x %= domain;
+      if (std::is_floating_point<W>::value && r.chance(0.8)) { w = W(double(1 + r.below(40)) / 8.0); count("fractional_weight_updates"); }   // dyadic fractions: sums stay exact
       T it = ItemGen<T>::make(x);
       if (w == 0) count("zero_weight");
       const uint32_t active_before = sk[l]->get_num_active_items();
@@ -150,7 +151,7 @@ static void run_program(Rng& r) {
       if (nupd < 60 || i % (nupd / 3 + 1) == 0) observe(*sk[l], md[l], universe, r, "update batch", K);
     }
     observe(*sk[l], md[l], universe, r, "updates", K);
-    if (std::is_signed<W>::value) VF_CHECK(throws([&] { sk[l]->update(ItemGen<T>::make(1), W(-1)); }), K + "negative-weight-accepted", G().cur_desc);
+    if (std::is_signed<W>::value || std::is_floating_point<W>::value) VF_CHECK(throws([&] { sk[l]->update(ItemGen<T>::make(1), W(-1)); }), K + "negative-weight-accepted", G().cur_desc);
     if (r.chance(0.4)) {
       const bool all_purged = sk[l]->get_num_active_items() == 0 && md[l].total > 0;
       SK d = roundtrip(*sk[l], r, K);
@@ -182,9 +183,10 @@ static void run_program(Rng& r) {
 }
 
 void run_case(uint64_t, Rng& r) {
-  switch (r.below(3)) {
+  switch (r.below(4)) {
     case 0: run_program<int64_t, uint64_t>(r); break;
     case 1: run_program<std::string, uint64_t>(r); break;
+    case 2: run_program<int64_t, double>(r); break;
     default: run_program<int64_t, int64_t>(r); break;
   }
 }
